@@ -31,6 +31,11 @@ ASSUMPTIONS = ["numpy dense linear algebra", "PySCF AO integrals, SCF, FCI / CCS
 SHARDS = {"quick": 4, "thorough": 16}
 
 TOL_E = 1e-7
+# VQE RDMs are assembled excitation by excitation through fermion_to_qubit_mapping + compress(), which drops Pauli
+# coefficients below openfermion's 1e-8: energies then differ by up to a few 1e-7 (1.3e-7 seen twice among 4000 thorough
+# cases). A wrong matrix element gives >= 1e-3.
+TOL_VQE = 1e-6
+TOL_H_VQE = 1e-6
 TOL_CC = 1e-6
 TOL_H = 1e-8
 SIG_PAD = "pad_rdms:mutates-input-arrays"
@@ -327,7 +332,7 @@ def vqe(ctx):
                     raise Fail(f"get_rdm_uhf returns matrices of shape {np.shape(g1[0])}/{np.shape(g1[1])} for {mol.n_active_mos} active "
                                f"alpha/beta orbitals; energy_from_rdms cannot contract them: {ex}", sig=SIG_UHFSHAPE)
                 raise
-            if abs(e_r - e) > TOL_E:
+            if abs(e_r - e) > TOL_VQE:
                 scbk_spin = asym_spin and case["mapping"].upper() == "SCBK"
                 raise Fail(f"{what}: energy_from_rdms = {e_r!r}, energy_estimation = {e!r} [mapping {case['mapping']}, "
                            f"up_then_down {case['utd']}, active spin {mol.active_spin}, molecular spin {mol.spin}]",
@@ -344,15 +349,15 @@ def vqe(ctx):
                 if abs(tra + trb - mol.n_active_electrons) > 1e-7:
                     raise Fail(f"vqe-rdm-uhf: traces {tra} + {trb}, active electrons {mol.n_active_electrons}", sig="vqe-rdm-uhf:trace")
             if mol.frozen_mos is not None:
-                intact = pad_and_check(mol, mcase, g1, g2, e, TOL_E, "vqe-rdm-uhf", trace=conserves)
+                intact = pad_and_check(mol, mcase, g1, g2, e, TOL_VQE, "vqe-rdm-uhf", trace=conserves)
                 labels.add("padded")
             else:
-                check_full_space(mol, mcase, g1, g2, e, TOL_E, "vqe-rdm-uhf", trace=conserves)
+                check_full_space(mol, mcase, g1, g2, e, TOL_VQE, "vqe-rdm-uhf", trace=conserves)
         else:
             g1, g2 = solver.get_rdm(tarr, sum_spin=True)
             energy_check(g1, g2, "vqe-rdm")
             e_f = energy_from_rdms(mol.fermionic_hamiltonian, g1, g2)
-            if abs(e_f - e) > TOL_E:
+            if abs(e_f - e) > TOL_VQE:
                 raise Fail(f"vqe-rdm: rdms.energy_from_rdms(fermionic_hamiltonian) = {e_f!r}, energy_estimation {e!r}",
                            sig="vqe-rdm:energy-fermionic-hamiltonian")
             check_hermitian(mol, g1, g2, "vqe-rdm")
@@ -382,7 +387,7 @@ def vqe(ctx):
                     else:
                         p, q, r, s = (k[0] for k in key)
                         e_s += coef * s2[p, s, q, r]
-                if abs(e_s - e) > TOL_E:
+                if abs(e_s - e) > TOL_VQE:
                     raise Fail(f"spin-resolved matrices contracted with the fermionic Hamiltonian give {e_s!r}, energy {e!r}",
                                sig="vqe-rdm:spin-resolved-energy")
                 if herm_defect(s1, s2) > TOL_H:
@@ -404,10 +409,10 @@ def vqe(ctx):
             else:
                 labels.add("form=spin-summed")
             if mol.frozen_mos is not None:
-                intact = pad_and_check(mol, mcase, g1, g2, e, TOL_E, "vqe-rdm", trace=conserves)
+                intact = pad_and_check(mol, mcase, g1, g2, e, TOL_VQE, "vqe-rdm", trace=conserves)
                 labels.add("padded")
             else:
-                check_full_space(mol, mcase, g1, g2, e, TOL_E, "vqe-rdm", trace=conserves)
+                check_full_space(mol, mcase, g1, g2, e, TOL_VQE, "vqe-rdm", trace=conserves)
         if not intact:
             raise Fail(f"pad_rdms_with_frozen_orbitals_{'un' if mol.uhf else ''}restricted changed the arrays passed in "
                        f"(VQE matrices, frozen {mcase['frozen']})", sig=SIG_PAD)
@@ -565,7 +570,7 @@ def history(ctx):
             psi, n = H.run_circuits([solver.ansatz.circuit], n=H.op_n_qubits(solver.qubit_hamiltonian.terms))
             e_ref, _ = H.expectation(solver.qubit_hamiltonian.terms, psi, n)
             e_r = mol.energy_from_rdms(g1, g2)
-            if abs(e_r - e_ref.real) > TOL_E:
+            if abs(e_r - e_ref.real) > TOL_VQE:
                 raise Fail(f"call {pos} (theta #{k}): energy_from_rdms = {e_r!r}, <psi|H|psi> = {e_ref.real!r}", sig="history:vqe-rdm:energy")
             if herm_defect(g1, g2) > TOL_H:
                 raise Fail(f"call {pos} (theta #{k}): spin-summed matrices are not Hermitian ({herm_defect(g1, g2)})", sig="history:vqe-rdm:hermiticity")
